@@ -42,7 +42,7 @@ claim("C03", "proof",
       "Proved: the root scan (scanBackwardsForMagicEnd, readRootsScan, checkAndReadRoots, readRoots, NewStoreEx) terminates and opens at the GREATEST position at which a complete, "
       "self-consistent root record ends (or reports that there is none; an I/O error is never mistaken for 'invalid' -- D5, repaired); a position is accepted iff the framing predicate written from the format holds; "
       "Flush writes items, then nodes, then the root record as its LAST write (commit point: magicEndAt(size) and size grew by at least one root record), never touches a byte below the old size, and a failed write leaves size and locations unset.",
-      A_E2E + A_COMMON + " Not decided: lemma TornRoot (a strict prefix of a root record contains no valid root end) is argued on paper; crash model = prefix of the ordered write sequence.")
+      A_E2E + A_COMMON + " Not decided by proof: lemma TornRoot (a strict prefix of a root record contains no valid root end) -- it is covered only by the bounded crash harness (every byte-granular prefix of the file between two completed flushes, 16 flushes with uncommitted values containing magic markers, re-opens to exactly the earlier flush); crash model = prefix of the ordered write sequence.")
 
 claim("C08", "proof",
       "Proved: FlushRevert lands on the greatest valid root strictly below the current one or on the empty store, truncates exactly there (once, never on a snapshot, never writes), refuses memory-only stores, "
